@@ -36,6 +36,13 @@ INVALID = [
     "struct V { @location(0) a: vec4<f32>, @location(0) b: vec4<f32> }\n@vertex fn main(v: V) -> @builtin(position) vec4<f32> { return v.a; }\n",
     "@group(0) @binding(0) var<uniform> u: array<f32>;\n@compute @workgroup_size(1) fn main() { }\n",
     "var<push_constant> a: f32;\nvar<push_constant> b: f32;\n@compute @workgroup_size(1) fn main() { _ = a + b; }\n",
+    # rejected by the validator AND containing something the generator itself has no output for (it would panic):
+    # with validation on the answer must be the validation error, whatever the generator would have done
+    "struct T { t: texture_2d<f32>, k: f32 }\n@group(0) @binding(0) var<uniform> u: T;\n@fragment fn main() { _ = u.k; }\n",
+    "struct R { items: array<f32>, last: f32 }\n@group(0) @binding(0) var<storage, read> r: R;\n@compute @workgroup_size(1) fn main() { _ = r.last; }\n",
+    "struct VM { @location(0) m: mat4x4<f32> }\n@vertex fn main(v: VM) -> @builtin(position) vec4<f32> { return v.m[0]; }\n",
+    "struct VB { @location(0) flag: bool }\n@vertex fn main(v: VB) -> @builtin(position) vec4<f32> { return vec4<f32>(0.0); }\n",
+    "@group(0) @binding(0) var<storage, read_write> counter: atomic<u32>;\n@group(0) @binding(0) var<uniform> dup: f32;\n@compute @workgroup_size(1) fn main() { _ = atomicAdd(&counter, 1u) + u32(dup); }\n",
 ]
 UNI = ["\u0000", "‏", "́", "\U0001F600", "é", " ", "﻿", "‮", "\t", "\r", "\\", "\"", "'", "\x7f", "\u0085"]
 TOKENS = ["{", "}", "(", ")", ";", "@", "->", "<", ">", "var", "fn", "struct", "123", "1.5e", "0x", "/*", "*/", "//", "::", "&", "*"]
@@ -139,6 +146,12 @@ def cases(rng, tier):
 
 
 CAPS_SOURCES = [
+    # features of naga's DEFAULT capability set: a caller-supplied set without them must still reject
+    "@group(0) @binding(0) var cube_arr: texture_cube_array<f32>;\n@group(0) @binding(1) var smp: sampler;\n"
+    "@fragment fn fs() -> @location(0) vec4<f32> { return textureSample(cube_arr, smp, vec3<f32>(0.0), 0); }\n",
+    "@fragment fn fs(@builtin(sample_index) si: u32) -> @location(0) vec4<f32> { return vec4<f32>(f32(si)); }\n",
+    "struct VO { @builtin(position) p: vec4<f32>, @location(0) @interpolate(perspective, sample) c: vec4<f32> }\n"
+    "@vertex fn vs() -> VO { var o: VO; return o; }\n",
     "var<push_constant> pc: vec4<f32>;\n@fragment fn fs() -> @location(0) vec4<f32> { return pc; }\n",
     "@group(0) @binding(0) var<storage, read> data: array<f64>;\n@compute @workgroup_size(1) fn cs() { _ = data[0]; }\n",
     "struct P { a: f32, b: f32 }\nvar<push_constant> p: P;\n@group(0) @binding(0) var<storage, read> d: array<f64, 4>;\n"
